@@ -6,6 +6,8 @@ CONSTANTS
   HasPlay = TRUE
   HasPause = FALSE
   Tracks = {0, 1}
+  MethodSet <- Methods
+  ShSet <- AllSh
 INVARIANT BImpliesA
 INVARIANT Agreement
 CHECK_DEADLOCK FALSE
